@@ -164,7 +164,7 @@ func (t *loopTr) bigMutCall(c *ast.CallExpr) types.Object {
 // bigPanics: c is a call that can panic by itself (Mod by zero) or yields the panic outcome (ModInverse, see the header).
 func (t *loopTr) bigPanics(c *ast.CallExpr) bool {
 	_, name := t.bigMethod(c)
-	return name == "Mod" || name == "ModInverse" || t.big2Panics(c) // (big2Panics: stage 12)
+	return name == "Mod" || name == "ModInverse" || t.big2Panics(c) || t.keyPanics(c) // (stages 12, 13)
 }
 
 // ---------------------------------------------------------------- the receiver
@@ -392,7 +392,7 @@ func (t *loopTr) bigCheck() {
 				return "var"
 			}
 		case *ast.SelectorExpr:
-			if t.fieldOf(x) != nil {
+			if t.fieldOf(x) != nil || t.keyCurveN(x) { // (keyCurveN: stage 13, X.Params().N)
 				return "field"
 			}
 			t.fail(e, "%s: a *big.Int is only supported as a parameter, a local variable, or a field read through the receiver", t.p.src(e))
@@ -438,7 +438,7 @@ func (t *loopTr) bigCheck() {
 		case *ast.CallExpr:
 			// a call whose result tuple contains a *big.Int must be a call of a translated function
 			if tv, ok := t.info.Types[x]; ok {
-				if _, isTup := tv.Type.(*types.Tuple); isTup && mentionsBig(tv.Type) && !translated(x) {
+				if _, isTup := tv.Type.(*types.Tuple); isTup && mentionsBig(tv.Type) && !translated(x) && !t.keyCallOK(x) {
 					t.fail(x, "call of %s, which returns a *big.Int and is not a translated function", t.p.src(x.Fun))
 				}
 			}
@@ -468,7 +468,7 @@ func (t *loopTr) bigCheck() {
 			if t.isBigNewInt(p) {
 				t.fail(e, "unsupported use of the *big.Int %s", src)
 			}
-			if !translated(p) {
+			if !translated(p) && !t.keyCallOK(p) {
 				t.fail(e, "the *big.Int %s is passed to %s, which is not a translated function (it could retain or modify it)", src, t.p.src(p.Fun))
 			}
 			return true
@@ -567,7 +567,12 @@ func (t *loopTr) bigCheck() {
 			t.fail(p, "statement `%s` has no effect that the translation models", t.p.src(p))
 		case *ast.BinaryExpr:
 			t.fail(p, "`%s`: comparing a *big.Int with nil or with another pointer is not supported (a nil *big.Int is not representable)", t.p.src(p))
-		case *ast.CompositeLit, *ast.KeyValueExpr, *ast.IndexExpr, *ast.SendStmt:
+		case *ast.CompositeLit:
+			if t.keyLitOK(e, stack) {
+				return true // stage 13 (loops_key.go): an element of a returned key literal
+			}
+			t.fail(e, "storing the *big.Int %s into a struct, slice, map or channel is not supported", src)
+		case *ast.KeyValueExpr, *ast.IndexExpr, *ast.SendStmt:
 			t.fail(e, "storing the *big.Int %s into a struct, slice, map or channel is not supported", src)
 		case *ast.UnaryExpr, *ast.StarExpr:
 			t.fail(e, "address-of / dereference of the *big.Int %s is not supported", src)
@@ -755,6 +760,9 @@ func (t *loopTr) bigModInverseStmt(s ast.Stmt, list []ast.Stmt, ind string, m bl
 	if out, ok := t.big2Stmt(s, ind, m, rest); ok {
 		return out, true // stage 12 (loops_big2.go): x := v.Op(…).M(), x := v.Index(w)
 	}
+	if out, ok := t.keyStmt(s, ind, m, rest); ok {
+		return out, true // stage 13 (loops_key.go): x, y := curve.ScalarBaseMult(b)
+	}
 	as, ok := s.(*ast.AssignStmt)
 	if !ok || len(as.Lhs) != 1 || len(as.Rhs) != 1 {
 		return "", false
@@ -790,7 +798,10 @@ func (t *loopTr) bigModInverseStmt(s ast.Stmt, list []ast.Stmt, ind string, m bl
 		}
 		if e != nil {
 			if nc, isCall := unparen(e).(*ast.CallExpr); isCall {
-				if nrecv, nname := t.bigMethod(nc); nrecv != nil && (bigSetters[nname] || nname == "Sign" || nname == "Cmp") {
+				// Cmp and Set do NOT count: math/big's (*Int).Cmp starts with `x == y` and (*Int).Set with `z != x`, so
+				// nil.Cmp(nil) is 0 and nil.Set(nil) is nil without any dereference (found by the fourth audit: `zinv.Cmp(zinv)`
+				// and `zinv.Set(zinv)` were accepted and translated as a panic although Go continues)
+				if nrecv, nname := t.bigMethod(nc); nrecv != nil && nname != "Cmp" && nname != "Set" && (bigSetters[nname] || nname == "Sign") {
 					isV := func(x ast.Expr) bool {
 						xid, ok := unparen(x).(*ast.Ident)
 						return ok && t.info.Uses[xid] == vo
@@ -953,7 +964,7 @@ func (t *loopTr) bigDoc() string {
 	if t.big == nil {
 		return ""
 	}
-	doc := "; *big.Int ↦ Int under the ownership discipline of the header, stage 10 (checked for this function); ASSUMPTION (not checked here): its *big.Int parameters"
+	doc := t.keyDoc() + "; *big.Int ↦ Int under the ownership discipline of the header, stage 10 (checked for this function); ASSUMPTION (not checked here): its *big.Int parameters"
 	if t.big.valueRecv {
 		doc += ", the *elliptic.CurveParams embedded in the receiver and the *big.Int fields read through it"
 	}
